@@ -225,15 +225,20 @@ def run(ctx):
             ctx.record_case(tag, True)
             if not ok:
                 ctx.mismatch(f'{kind} block', tag, s.tolist(), None if M is None else M.tolist())
-    for i in range(ctx.n(24, 400)):
-        why, case, note = oracle_fit(ctx, ctx.tier == 'thorough')
-        ctx.count(f"fit:{case['family']}/{case['reg']}")
-        if note:
-            ctx.count('fit_note:' + note[:40])
-        ctx.record_case({k: v for k, v in case.items() if k != 'X'}, True)
-        if why:
-            ctx.fail(why, case, {'family': case['family'], 'reg': case['reg']})
-    return ctx.finish('proof', None)
+    def fits(n, stop_at_first=False):
+        for i in range(n):
+            why, case, note = oracle_fit(ctx, ctx.tier == 'thorough')
+            ctx.count(f"fit:{case['family']}/{case['reg']}")
+            if note:
+                ctx.count('fit_note:' + note[:40])
+            ctx.record_case({k: v for k, v in case.items() if k != 'X'}, True)
+            if why:
+                ctx.fail(why, case, {'family': case['family'], 'reg': case['reg']})
+                if stop_at_first:
+                    return
+    fits(ctx.n(24, 400))
+    # a broken proof / correspondence with no failing fit so far: a larger population of fits (same oracle)
+    return ctx.finish('proof', lambda c: fits(100, True))
 
 
 def replay(ctx, path):
